@@ -6,6 +6,7 @@ import (
 	"io"
 	"net"
 	"os"
+	"sort"
 	"sync"
 	"time"
 )
@@ -24,6 +25,9 @@ type Conn struct {
 	NetworkName string
 	// RecordFrames: parse writes as length-prefixed frames for the wire record.
 	RecordFrames bool
+	// CanonTies: every Write is one whole frame written by a node (not by a scripted peer, whose chunks must
+	// stay in order): frames written in one instant are put on the wire in canonical order (see Session.Send).
+	CanonTies bool
 
 	mu       sync.Mutex
 	buf      []byte
@@ -35,6 +39,7 @@ type Conn struct {
 	readN    int
 	writeN   int
 	lastAt   time.Duration
+	batch    []sendItem
 }
 
 type simAddr struct{ network, s string }
@@ -179,14 +184,69 @@ func (c *Conn) Write(p []byte) (int, error) {
 		c.mu.Unlock()
 		return 0, fmt.Errorf("write on closed connection")
 	}
-	n := c.writeN
-	c.writeN++
-	c.mu.Unlock()
 	if c.w.OverBudget() {
+		c.mu.Unlock()
 		c.w.Count("fate_budget", 1)
 		return len(p), nil
 	}
 	cp := append([]byte(nil), p...)
+	if !c.CanonTies || c.l == nil {
+		c.mu.Unlock()
+		c.write1(cp, c.w.Now())
+		return len(p), nil
+	}
+	c.batch = append(c.batch, sendItem{cp, c.w.Now()})
+	first := len(c.batch) == 1
+	c.mu.Unlock()
+	if first {
+		time.AfterFunc(time.Nanosecond, c.flush)
+	}
+	return len(p), nil
+}
+
+func (c *Conn) flush() {
+	c.mu.Lock()
+	batch := c.batch
+	c.batch = nil
+	gone := c.severed
+	c.mu.Unlock()
+	if gone || len(batch) == 0 {
+		return
+	}
+	if len(batch) > 1 {
+		keys := make([]string, len(batch))
+		for i := range batch {
+			if len(batch[i].data) > 2 {
+				keys[i] = tieKey(batch[i].data[2:])
+			}
+		}
+		idx := make([]int, len(batch))
+		for i := range idx {
+			idx[i] = i
+		}
+		sort.SliceStable(idx, func(a, b int) bool {
+			if batch[idx[a]].at != batch[idx[b]].at {
+				return batch[idx[a]].at < batch[idx[b]].at
+			}
+			return keys[idx[a]] < keys[idx[b]]
+		})
+		sorted := make([]sendItem, len(batch))
+		for i, j := range idx {
+			sorted[i] = batch[j]
+		}
+		batch = sorted
+		c.w.Count("same_instant_batches", 1)
+	}
+	for _, it := range batch {
+		c.write1(it.data, it.at)
+	}
+}
+
+func (c *Conn) write1(cp []byte, sent time.Duration) {
+	c.mu.Lock()
+	n := c.writeN
+	c.writeN++
+	c.mu.Unlock()
 	delay := time.Millisecond
 	fate := "deliver"
 	var recs []*WireRec
@@ -202,14 +262,17 @@ func (c *Conn) Write(p []byte) (int, error) {
 			fate = "silent"
 		}
 		if c.RecordFrames {
-			recs = c.recordFrames(cp, fate)
+			recs = c.recordFrames(cp, fate, sent)
 		}
 	}
 	if fate == "silent" {
-		return len(p), nil
+		return
 	}
 	now := c.w.Now()
-	at := now + delay
+	at := sent + delay
+	if at <= now {
+		at = now + time.Nanosecond
+	}
 	c.mu.Lock()
 	if at <= c.lastAt {
 		at = c.lastAt + time.Nanosecond
@@ -226,17 +289,16 @@ func (c *Conn) Write(p []byte) (int, error) {
 		}
 		peer.push(cp, false)
 	})
-	return len(p), nil
 }
 
-func (c *Conn) recordFrames(p []byte, fate string) (recs []*WireRec) {
+func (c *Conn) recordFrames(p []byte, fate string, sent time.Duration) (recs []*WireRec) {
 	// netMessageConn / TCPSession write exactly one frame per Write call.
 	for len(p) >= 2 {
 		n := int(binary.LittleEndian.Uint16(p[:2]))
 		if len(p) < 2+n {
 			break
 		}
-		recs = append(recs, c.w.record(c.l, c.gen, c.name, c.peer.name, p[2:2+n], fate))
+		recs = append(recs, c.w.recordAt(sent, c.l, c.gen, c.name, c.peer.name, p[2:2+n], fate))
 		p = p[2+n:]
 	}
 	return recs
@@ -253,6 +315,7 @@ func (c *Conn) Close() error {
 	sev := c.severed
 	c.buf = nil
 	c.mu.Unlock()
+	c.flush() // what was written before the close is in flight
 	c.wake()
 	if !sev {
 		if c.l != nil {
@@ -278,6 +341,7 @@ func (c *Conn) Close() error {
 
 // CloseWrite half-closes: peer sees EOF, this end can still read.
 func (c *Conn) CloseWrite() error {
+	c.flush()
 	now := c.w.Now()
 	lat := time.Millisecond
 	if c.l != nil {
